@@ -83,3 +83,13 @@ Theorem C04_layout : forall c st ops pre name post cgf,
     = Some (SLabel (Z.of_nat (List.length (filter code_cop (cv_out cgp))))).
 Proof. exact layout. Qed.
 Print Assumptions C04_layout.
+
+(* ---- label values are instruction addresses ------------------------------------------------------------- *)
+From Hera.Proofs Require Import C04_Bounds.
+(* in a program whose label pass reports no error (in particular: an accepted program), every code label is an
+   address 0..65535: it can be loaded by SETLO/SETHI and reached by a register branch without truncation *)
+Theorem C04_labels_in_range : forall c ops st msgs,
+  get_labels c ops = (st, msgs) -> has_errors msgs = false ->
+  forall k v, dict_get st k = Some (SLabel v) -> 0 <= v <= 65535.
+Proof. exact labels_in_range. Qed.
+Print Assumptions C04_labels_in_range.
